@@ -29,7 +29,8 @@ RULE = ("a DML specification is drawn first (target table of a seeded database, 
         "row, aliased value, empty tuple); plus FORKS (a kept prefix from which 2-4 statements are derived, each judged against "
         "its own specification, the prefix observed again afterwards), all 31 arithmetic (outer op, side, inner op) triples "
         "as SET value / WHERE operand / DELETE criterion / INSERT value on a table of primes, and UPDATE/DELETE with a "
-        "correlated IN / EXISTS / comparison sub-query whose criteria come from separate where() calls. Non-trivial = a judged call list with >= 2 calls or >= 2 rows/SET pairs; distinct "
+        "correlated IN / EXISTS / comparison sub-query whose criteria come from separate where() calls, and INSERT...SELECT "
+        "in all 400 admissible orders of into/columns/from_/select/where/replace()/insert_or_replace() on an empty builder. Non-trivial = a judged call list with >= 2 calls or >= 2 rows/SET pairs; distinct "
         "by JSON of the case.")
 TRUSTED = [
     "SQLite 3.40.1 (Python sqlite3) as the engine; the reference effect is explicit SQL with bound parameters built by "
@@ -108,7 +109,7 @@ def corpus():
         c = g.malformed(k)
         c["cls"] = "SQLLiteQuery" if k != 4 else "Query"
         out.append(c)
-    return _corpus_files() + out + mr.triples() + mr.fork_witnesses() + mr.corr_witnesses()
+    return _corpus_files() + out + mr.triples() + mr.fork_witnesses() + mr.corr_witnesses() + mr.insert_select_orders()
 
 
 def gen_cases(rng, tier):
@@ -128,6 +129,8 @@ def gen_cases(rng, tier):
             out.append(fg.fork())
         elif x < 0.38:
             out.append(mr.corr_case(rng, fg))
+        elif x < 0.44:
+            out.append(mr.random_insert_select_order(rng, fg))
         else:
             out.append(g.any_b())
     return out
